@@ -84,6 +84,7 @@ class BuildResult:
         self.cmd = ''
         self.wall = 0.0
         self.translator_error = None
+        self.translator_errors = {}     # Gen file (relative to coq/) -> error text
 
 
 def _lock():
@@ -157,9 +158,13 @@ def build(log_name='build'):
         # 1. translator (fail closed)
         try:
             from harness.translator import pytab2coq
-            pytab2coq.regenerate(REPO, os.path.join(THEORIES, 'Gen'))
+            errs = pytab2coq.regenerate(REPO, os.path.join(THEORIES, 'Gen'))
+            res.translator_errors = {'theories/Gen/' + k: v for k, v in errs.items()}
+            if errs:
+                res.translator_error = '; '.join('%s: %s' % kv for kv in sorted(errs.items()))
         except Exception as e:  # translation error = the tie is broken
             res.translator_error = '%s: %s' % (type(e).__name__, e)
+            res.translator_errors = {'theories/Gen/*': res.translator_error}
         # 2. source list + makefile
         lines = ['-R theories SageVerif',
                  '-arg -w -arg -notation-overridden,-deprecated-hint-without-locality,'
